@@ -1,7 +1,7 @@
 """Regression of the checks against every archived seeded change: apply seeded/<name>/patch.diff to a scratch copy of /repo (outside /repo and
 /verif), run the quick tier of the check of its property (plus any extra checks named in meta.json "also") against it, record verdict and new keys.
 
-  /venv/bin/python tools/seed_regress.py [--only <substring>]        (results -> seeded/results.json)"""
+  /venv/bin/python tools/seed_regress.py [--only <substring>] [--new]        (results -> seeded/results.json)"""
 import json, os, shutil, subprocess, sys, tempfile, time, glob
 HERE = os.path.dirname(os.path.dirname(os.path.abspath(__file__)))
 
@@ -14,6 +14,7 @@ def main():
         for d in sorted(glob.glob(os.path.join(HERE, "seeded", "*", ""))):
             name = os.path.basename(d.rstrip("/"))
             if only and only not in name: continue
+            if "--new" in sys.argv and name in results: continue      # only the seeded changes that have no recorded result yet
             meta = json.load(open(os.path.join(d, "meta.json")))
             root = os.path.join(work, "repo"); shutil.rmtree(root, ignore_errors=True); os.makedirs(root)
             shutil.copytree("/repo/src", os.path.join(root, "src"), ignore=shutil.ignore_patterns("__pycache__", "*.pyc"))
